@@ -60,8 +60,8 @@ pub fn call_entry(f: Fmt, entry: &str, s: &str) -> Result<&'static str, String> 
 pub fn call_multi(f: Fmt, batch: &[String]) -> Result<usize, String> {
     let e = f.e();
     let r = observe(|| {
-        let refs: Vec<&str> = batch.iter().map(|s| s.as_str()).collect();
-        let rs = e.parse_multi(refs);
+        let mut joined = String::new();
+        let rs = parse_multi_any(e, batch, &mut joined);
         let mut oks = 0;
         for r in &rs {
             match r {
